@@ -225,159 +225,4 @@ theorem slotStep_flat (S : Schema) (rec : Loader) (d : MsgD) (k : Nat) (f : Fiel
   | dict ks vs => simp [flatSlotOk, scalarOk] at hok
   | msg c' sl' ow' unk' cur' => simp [flatSlotOk, scalarOk] at hok
 
-/-! ### the round trip for nested messages -/
-
-/-- **decode ∘ encode for every well-typed message, nested or recursive**, stated for the
-    loader with any nesting fuel above the length of the encoding (which is what `parse`
-    supplies). Induction on the fuel; nested payloads are strictly shorter. -/
-theorem nested_fuel (S : Schema) : ∀ (fuel : Nat) (c : Nat) (d : MsgD) (sl : List Val) (ow : Bool) (unk : Bytes)
-    (cur : List (Option Nat)) (bs : Bytes),
-    MsgOk S (.msg c sl ow unk cur) → S[c]? = some d → dumpVal S (.msg c sl ow unk cur) = .ok bs →
-    bs.length < 2 ^ 64 → bs.length < fuel →
-    ∃ sl', loadInto S fuel d (freshState d) bs = .ok { slots := sl', onWire := true, unknown := unk, cur := cur }
-      ∧ ValEqv S (.msg c sl ow unk cur) (.msg c sl' true unk cur)
-      ∧ dumpVal S (.msg c sl' true unk cur) = .ok bs := by
-  intro fuel
-  induction fuel using Nat.strongRecOn with
-  | _ fuel0 ih =>
-  cases fuel0 with
-  | zero => intro c d sl ow unk cur bs _ _ _ _ h; omega
-  | succ fuel =>
-    intro c d sl ow unk cur bs hmsg hd hdump hbl hfuel
-    cases hmsg with
-    | mk _ d' _ _ _ _ hd' hdist hwfg hgrpopt hcurlen hcurok hinv hselset hslots hunk =>
-    rw [hd] at hd'; injection hd' with hd'; subst hd'
-    have hlen : sl.length = d.fields.length := slotsOk_len S _ _ hslots
-    have hfo : fieldsOf S c = d.fields := by simp [fieldsOf, hd]
-    -- the body of the encoding
-    obtain ⟨body, hbody, hbs⟩ : ∃ body, dumpSlots S d.fields cur 0 sl = .ok body ∧ bs = body ++ unk := by
-      rw [dumpVal_msg, hfo] at hdump
-      cases hb : dumpSlots S d.fields cur 0 sl with
-      | error e => rw [hb] at hdump; simp at hdump
-      | ok body => rw [hb] at hdump; simp only [bind_ok] at hdump; injection hdump with h; exact ⟨body, rfl, h.symm⟩
-    have hsel_grp : ∀ i f, d.fields[i]? = some f → selectedInGroup f i cur = true →
-        ∃ g, f.group = some g ∧ cur.getD g Option.none = some i := by
-      intro i f _ hs
-      unfold selectedInGroup at hs
-      cases hg : f.group with
-      | none => rw [hg] at hs; simp at hs
-      | some g => rw [hg] at hs; exact ⟨g, rfl, by simpa using hs⟩
-    have hslot : ∀ i f, d.fields[i]? = some f → SlotOk S f (sl.getD i .ph) := by
-      intro i f hf
-      have hil : i < sl.length := by
-        rw [hlen]; by_contra hc; rw [List.getElem?_eq_none (by omega)] at hf; simp at hf
-      have hvi : sl[i]? = some (sl.getD i .ph) := by
-        rw [List.getD_eq_getElem?_getD, List.getElem?_eq_getElem hil]; rfl
-      exact slotsOk_get S _ _ hslots i f _ hf hvi
-    have hshape : MsgShape S d sl cur := by
-      refine ⟨hlen, hcurlen, hwfg, hcurok, hgrpopt, hinv, ?_⟩
-      intro i f b hf hs hb
-      obtain ⟨g, hg, hcg⟩ := hsel_grp i f hf hs
-      have hh : hidden f i cur = false := by unfold hidden; rw [hg]; simp only; rw [hcg]; simp
-      rw [hh] at hb
-      have hne := hselset g i hcg
-      have hgo := hgrpopt f (List.mem_of_getElem? hf) (by simp [hg])
-      have hso := hslot i f hf
-      generalize sl.getD i .ph = v at hso hne hb
-      cases hso with
-      | flat _ _ hff hok =>
-        exact flat_selected_emits S f _ b (by simp [hg]) (flat_member_scalar f _ g hff hok hne hgo hg) hb
-      | unsetSub _ c' _ _ => exact absurd rfl hne
-      | noneSub _ c' _ ho => rw [hgo] at ho; simp at ho
-      | sub _ c' sl' ow' unk' cur' hsf _ _ => exact sub_selected_emits S f c' sl' ow' unk' cur' b hsf (by simp [hg]) hb
-      | subs _ c' xs hsf hr _ => have := (hsf.rep hr).2; rw [hg] at this; simp at this
-    -- every slot is a step for the nested loader with the smaller fuel
-    have hsteps : ∀ k f v, d.fields[k]? = some f → sl[k]? = some v →
-        SlotStep S (loadInto S fuel) d (fun _ v v' => ValEqv S v v') k f (hidden f k cur) (selectedInGroup f k cur) v := by
-      intro k f v hf hv
-      have hvD : sl.getD k .ph = v := by simp [List.getD_eq_getElem?_getD, hv]
-      have hso : SlotOk S f v := slotsOk_get S _ _ hslots k f v hf hv
-      -- the bytes of this slot are at most the body
-      obtain ⟨b0, hb0, hb0len⟩ := dumpSlots_slot_le S d.fields cur sl 0 body hbody k f v (by simpa using hf) hv
-      simp only [Nat.zero_add] at hb0
-      have hblen : body.length ≤ fuel := by rw [hbs] at hfuel; simp at hfuel; omega
-      have hb64 : body.length < 2 ^ 64 := by rw [hbs] at hbl; simp at hbl; omega
-      have hphsel : v = Val.ph → ∀ g, f.group = some g → cur.getD g Option.none ≠ some k := by
-        intro hvp g _ hc
-        exact hselset g k hc (by rw [hvD, hvp])
-      cases hso with
-      | flat _ _ hff hok =>
-        exact slotStep_flat S _ d k f cur v hdist hf hff hok hphsel _ (fun _ v => ValEqv.refl v)
-      | unsetSub _ c' _ ho =>
-        apply slotStep_empty
-        intro b hb
-        exact ph_emits_nothing S f k cur b ho (hphsel rfl) hb
-      | noneSub _ c' _ _ =>
-        apply slotStep_empty
-        intro b hb
-        rw [dumpSlot] at hb; injection hb with hb; exact hb.symm
-      | sub _ c' sl' ow' unk' cur' hsf hr hmo =>
-        intro st b hb
-        have hbb : b = b0 := by rw [hb0] at hb; injection hb with hb; exact hb.symm
-        by_cases hbe : b = []
-        · intro _ _ _ _ _
-          exact ⟨[], .ph, fun _ h => by simp at h, by simp [joinRaw, hbe], fun h => absurd hbe h, by rw [if_pos hbe]; rfl⟩
-        · obtain ⟨p, hp, hplt⟩ := sub_payload_lt S f c' _ _ sl' ow' unk' cur' b hsf hb hbe
-          rw [hbb] at hplt
-          have hmo' := hmo
-          cases hmo' with
-          | mk _ dc _ _ _ _ hdc _ _ _ _ _ _ _ _ _ =>
-          have hinner : RoundTrips S (loadInto S fuel) (.msg c' sl' ow' unk' cur') := by
-            intro c2 d2 sl2 ow2 unk2 cur2 bs2 he hd2 hdump2
-            injection he with e1 e2 e3 e4 e5
-            subst e1; subst e2; subst e3; subst e4; subst e5
-            rw [hp] at hdump2; injection hdump2 with e; subst e
-            exact ih fuel (by omega) c' d2 sl' ow' unk' cur' p hmo hd2 hp (by omega) (by omega)
-          exact slotStep_sub S _ d k f c' dc sl' ow' unk' cur' _ _ hdist hf hsf hr hdc hinner st b hb
-      | subs _ c' xs hsf hr hms =>
-        obtain ⟨ho, hg⟩ := hsf.rep hr
-        have hh : hidden f k cur = false := by unfold hidden; rw [hg]
-        have hs : selectedInGroup f k cur = false := by unfold selectedInGroup; rw [hg]
-        intro st b hb
-        have hbb : b = b0 := by rw [hb0] at hb; injection hb with hb; exact hb.symm
-        by_cases hxe : xs = []
-        · -- an empty list emits nothing
-          subst hxe
-          have hbe : b = [] := by
-            rw [hh, hs, dumpSlot_subs S f c' [] hsf hr, dumpItems] at hb
-            injection hb with hb; exact hb.symm
-          intro _ _ _ _ _
-          exact ⟨[], .ph, fun _ h => by simp at h, by simp [joinRaw, hbe], fun h => absurd hbe h, by rw [if_pos hbe]; rfl⟩
-        · obtain ⟨x0, hx0⟩ := List.exists_mem_of_ne_nil xs hxe
-          obtain ⟨⟨sl0, ow0, unk0, cur0, hx0e⟩, hmo0⟩ := msgsOk_mem S c' xs hms x0 hx0
-          subst hx0e
-          have hmo0' := hmo0
-          cases hmo0' with
-          | mk _ dc _ _ _ _ hdc _ _ _ _ _ _ _ _ _ =>
-          have hitems : dumpItems S f xs = .ok b := by
-            rw [hh, hs, dumpSlot_subs S f c' xs hsf hr] at hb; exact hb
-          have hinner : AllRoundTrip S (loadInto S fuel) c' xs := by
-            intro x hx
-            obtain ⟨hxm, hxo⟩ := msgsOk_mem S c' xs hms x hx
-            refine ⟨hxm, ?_⟩
-            obtain ⟨p, hp, hplt⟩ := subs_payload_lt S f c' hsf.ty hsf.nw xs b
-              (fun y hy => (msgsOk_mem S c' xs hms y hy).1) hitems x hx
-            rw [hbb] at hplt
-            intro c2 d2 sl2 ow2 unk2 cur2 bs2 he hd2 hdump2
-            subst he
-            rw [hp] at hdump2; injection hdump2 with e; subst e
-            have hc2 : c2 = c' := by
-              obtain ⟨_, _, _, _, e⟩ := hxm; injection e
-            subst hc2
-            exact ih fuel (by omega) c2 d2 sl2 ow2 unk2 cur2 p hxo hd2 hp (by omega) (by omega)
-          have := slotStep_subs S _ d k f c' dc (selectedInGroup f k cur) xs hdist hf hsf hr hdc hs hinner
-          rw [hh] at hb ⊢
-          exact this st b hb
-    obtain ⟨sl', h1, h2, h3, h4⟩ :=
-      fold_of_steps S (loadInto S fuel) c d hd sl ow unk cur _ hshape hunk bs hdump hbl hsteps
-    refine ⟨sl', ?_, ?_, h4⟩
-    · rw [loadInto_succ]; exact h1
-    · apply ValEqv.msg
-      rw [hfo]
-      apply slotsEqv_of_index S d.fields cur 0 sl sl' h2
-      · intro j f hf _
-        simp only [Nat.zero_add] at hf ⊢
-        exact h3 j f hf
-      · omega
-
 end Bp
